@@ -247,6 +247,11 @@ func (p c06) Exec(c *fw.Ctx, u *fw.Unit) {
 				}
 			}
 		}
+		for _, base := range []string{"1234567", "12345670", "123456789012", "4006381333931"} {
+			for _, d := range decorate([]byte(base)) {
+				eanCheck(c, string(d), false)
+			}
+		}
 		for _, tl := range []int{7, 8, 12, 13} {
 			for k := 0; k < 50; k++ {
 				// wrong check digits: all nine wrong values
